@@ -371,7 +371,8 @@ impl<'s> Rw<'s> {
         self.edit(ma, open_end, &head, "R3", &format!("select! #{} -> match on oracle at {}", k, self.loc(whole)));
         // variants of the event enum that this select! has no arm for must be proved impossible
         // from the oracle's contract (`arm_not_in_select` requires false)
-        self.edit(close_a, close_b, "#[allow(unreachable_patterns)] _ => { arm_not_in_select(); }\n} }", "R3", "select! close");
+        let close = if sel.fallback { "_ => { arm_not_in_select(); }\n} }" } else { "} }" };
+        self.edit(close_a, close_b, close, "R3", "select! close");
         for (i, arm) in body.arms.iter().enumerate() {
             let want = &sel.arms[i];
             let have = squash(self.text(arm.fut.span()));
